@@ -131,7 +131,10 @@ def run_ops(case, stats=None, flavour=None):
                 interesting += 1
         elif kind == "fw":
             image = lockstep.image_bytes(op["image"]) if op.get("image") else None
-            step = driver.update_fw(op["nids"], op["type"], op["ver"], image=image, via_path=bool(op.get("via_path")))
+            if op.get("bad_path"):
+                step = driver.update_fw(op["nids"], op["type"], op["ver"], path="/nonexistent/vf_fw.hex")
+            else:
+                step = driver.update_fw(op["nids"], op["type"], op["ver"], image=image, via_path=bool(op.get("via_path")))
             if step.exc is not None:
                 raise Violation(f"crash.{type(step.exc).__name__}", case, f"{where}: pump raised {step.exc!r}")
         elif kind == "metric":
